@@ -6,6 +6,7 @@ import SpVerif.Ops.PusTm
 import SpVerif.Ops.Srv1
 import SpVerif.Ops.SeqCount
 import SpVerif.Ops.Cds
+import SpVerif.Ops.Crc
 /-!
 # Line-protocol driver: one JSON object per input line (`{"op": …, …}`), one JSON result per output line.
 `{"ok": …}` / `{"err": "<category>"}` are model results; `{"bad": "<msg>"}` is a protocol error.
@@ -21,6 +22,7 @@ def allOps : List (String × Handler) := []
   ++ Ops.Srv1.ops
   ++ Ops.SeqCount.ops
   ++ Ops.Cds.ops
+  ++ Ops.Crc.ops
 
 def table : Std.HashMap String Handler := Std.HashMap.ofList allOps
 
